@@ -19,6 +19,10 @@ SMALL = {"v2q", "vvmul", "UnitQuaternion.Vec3"}      # vector parts of unit quat
 def vec(k, n, et, name=None):
     """the k-th (0-based) vector argument with n elements of type et"""
     v = PATTERN[k % 2][:n]
+    if et == "float-with-residue":
+        # floats among which sit rounding residues (6.1e-17, -1.2e-16) such as sin(pi) leaves behind
+        base_ = vec(k, n, "float", name)
+        return [(6.123233995736766e-17 if i % 3 == 1 else -1.2246467991473532e-16 if i % 3 == 2 else x) for i, x in enumerate(base_)]
     if name in SMALL:
         return [(float(x) + 0.5) * 0.1 if et == "float" else 0 * int(x) for x in v]
     return [float(x) + 0.5 if et == "float" else int(x) for x in v]
